@@ -65,6 +65,7 @@ def shards(tier, seed):
     out += [("seps", i) for i in range(len(SEPS))]
     out.append(("nospec",))
     out += [("width", sz) for sz in WIDTH_SIZES]
+    out.append(("manyspecs",))
     return out
 
 
@@ -196,6 +197,19 @@ def run_shard(desc, tier):
                 judge_grammar([specs[a], specs[b]], size, "bytes=" + texts[a] + "," + texts[b], r)
                 judge_grammar([specs[b], specs[a]], size, "bytes=" + texts[b] + ", " + texts[a], r)
         r.sample({"size": size, "numbers": nums[:12], "header": f"bytes=-{size}"})
+    elif kind == "manyspecs":
+        # long lists: n disjoint one-byte windows (every other byte), optionally followed by one spec that changes everything (an
+        # open range that swallows all, a start beyond the file, a reversed pair); n around every power of two and every
+        # hundred up to 1100
+        size = 4000
+        counts = sorted({c for k in range(1, 11) for c in (2 ** k - 1, 2 ** k, 2 ** k + 1)} | {c + d for c in range(100, 1101, 100) for d in (-1, 0, 1)})
+        for n in counts:
+            windows = [("fl", 2 * i, 2 * i) for i in range(n)]
+            for tail in ([], [("f", 1)], [("f", size)], [("fl", 9, 3)], [("s", 1)], [("fl", 2 * n - 2, 2 * n + 4)]):
+                specs = windows + tail
+                judge_grammar(specs, size, RR.header_text(specs), r)
+                judge_grammar(tail + windows, size, RR.header_text(tail + windows), r)
+        r.sample({"size": size, "specs": "n one-byte windows + one closing spec", "n": counts[-5:]})
     elif kind == "chain":
         for n in range(4, len(CHAIN) + 1):
             for sub in itertools.combinations(CHAIN, n):
